@@ -72,6 +72,7 @@ type HarnessRun struct {
 	Unknowns    []string
 	Unsupported map[string]int
 	Witness     map[string]map[string]interface{} // site -> model inputs reaching it
+	WitnessNotes map[string][]string
 	SitesSeen   map[string]int
 	Cuts        map[string]int
 	Steps       int64
@@ -96,6 +97,7 @@ type Engine struct {
 	errorType  types.Type
 	poisonPkgs map[string]bool
 	trace      bool
+	sizes      types.Sizes
 }
 
 type Worker struct {
@@ -1206,9 +1208,19 @@ func (w *Worker) sliceOp(g *G, fr *Frame, in *ssa.Slice) Value {
 	return nil
 }
 
+func ext64(idx *Term, signed bool) *Term {
+	if idx.S.W == 64 {
+		return idx
+	}
+	if signed {
+		return SExt(idx, 64)
+	}
+	return ZExt(idx, 64)
+}
+
 func (w *Worker) index(g *G, fr *Frame, in *ssa.Index) Value {
 	x := w.get(fr, in.X)
-	idx := w.get(fr, in.Index).(*Term)
+	idx := ext64(w.get(fr, in.Index).(*Term), isSigned(in.Index.Type()))
 	switch xv := x.(type) {
 	case *ArrayV:
 		n := len(xv.E)
